@@ -411,5 +411,10 @@ def cli(chk: Check):
     if len(wr) == 1:
         t = R.expr(ctx, wr[0].args[0])
         ek = chk.prog.cls(REL, "Envelope").key
-        okw = t[0] == "call" and t[1] == f"{ek}.decrypt" and len(t[2]) == 2 and "key" in S.show(t[2][1])[-20:]
+        # the key argument: the keystore's `key` - as an attribute read, or (the keystore comes from a factory of known class) as the
+        # value of that property
+        ksk = chk.prog.cls(REL, "KeyStore").key
+        arg = t[2][1] if t[0] == "call" and len(t[2]) == 2 else None
+        is_key = arg is not None and ((arg[0] == "attr" and arg[2] == "key") or arg == R.self_attr(ksk, "key"))
+        okw = t[0] == "call" and t[1] == f"{ek}.decrypt" and is_key
     chk.decide(okw, "K-PATH", "cli-writes-exactly-the-plaintext", wr[0] if wr else ctx.func, "the output file receives exactly envelope.decrypt(keystore.key)")
